@@ -684,6 +684,27 @@ func checkExpiredAbsent(r *Report, f *ssa.Function) {
 				"a delete triggered by an expiry observation made before the lock was (re)acquired must re-test expiry inside the critical section (a concurrent writer may have refreshed the key)",
 				fn, "expiry-delete-revalidated")
 		}
+		// a delete that nobody asked for by key (the key is not a parameter of an exported operation:
+		// it comes from a sweep over the map, from a list of keys collected earlier, ...) removes a
+		// live entry unless the entry was found expired inside this critical section
+		key := ci.Call.Args[1]
+		asked := false
+		for _, rt := range Origins(key) {
+			if p, ok := rt.V.(*ssa.Parameter); ok {
+				if pf := p.Parent(); pf != nil && pf.Object() != nil && pf.Object().Exported() {
+					if b, ok := p.Type().Underlying().(*types.Basic); ok && b.Kind() == types.String {
+						asked = true
+					}
+				}
+			}
+		}
+		if !asked && !inside {
+			r.Ob("R-C13-5", ci.Pos(), false,
+				"an entry is deleted without having been asked for by key and without having been found expired under this lock (keys collected as expired in an earlier critical section may have been rewritten since)",
+				fn, "unasked-delete-revalidated")
+		} else if !asked {
+			r.Pass("R-C13-5", ci.Pos(), "sweep delete under an expiry test made in the same critical section", fn, "unasked-delete-revalidated")
+		}
 	})
 }
 
